@@ -95,6 +95,10 @@ func nodeUses(e ssa.Value, onlyBody bool) []ssa.Instruction {
 func c19(c *an.Ctx) {
 	p := c.P
 
+	c.Check("R-PAIR", "union members: fragment directives are evaluated by the object resolver on a selection set that carries every applicable fragment and the union-level selections (an excluded fragment removes exactly its own fields)", 2, func(o *an.O) {
+		ruleUnionMemberSelection(c, o)
+	})
+
 	c.Check("R-DOM", "ShouldIncludeNode consults both @skip and @include before any including return; @skip(if:true) excludes", 3, func(o *an.O) {
 		fn := c.NeedFunc(gq, "ShouldIncludeNode")
 		finds := map[string][]ssa.Instruction{}
